@@ -3,7 +3,7 @@ import Dashu.Proofs.Float.Arith
 /-
   Statement-review additions (round 3): the flag of `FBig::to_int` tells the truth (inexact results are
   really inexact, `AddOne` / `SubOne` name the side), and the operator forms `a + b`, `a - b` agree with
-  `Context::add` / `sub` for operands that fit the precision.
+  `Context::add` / `sub` (round 6, after fix 164990d: for all operands).
 -/
 namespace Dashu.Model.Float
 open Dashu Dashu.Props.GenRound
@@ -44,31 +44,36 @@ theorem fToInt_contract (B : Nat) (hB : 2 ≤ B) (m : Mode) (c : Coarse) (hc : C
 
 /-! ### operator forms of `+` / `-` (`add_val_val`, `add_val_ref`, `add_ref_val`, `add_ref_ref`) -/
 
-/-- the four ownership forms of `FBig + FBig` / `FBig - FBig` at `Context::max` precision `p`: a zero operand
-    returns the other one UNROUNDED (sign applied for `0 - b`), otherwise the same alignment code as
-    `Context::add` / `sub`; only the value is returned -/
+/-- the four ownership forms of `FBig + FBig` / `FBig - FBig` at `Context::max` precision `p` (float/src/add.rs
+    `add_val_val` / `add_val_ref` / `add_ref_val` / `add_ref_ref` as of fix 164990d): a zero operand returns the other
+    one (sign applied for `0 - b`) ROUNDED to the result precision (`context.repr_round(..).value()`), otherwise the
+    same alignment code as `Context::add` / `sub`; only the value is returned.
+    (Before 164990d the zero-operand arms returned the other operand unrounded — finding C15/C05 "zero operand
+    unrounded", now a `fixed:` line.) -/
 def opAddSub (B : Nat) (m : Mode) (c : Coarse) (dub : Int → Nat) (p : Nat) (lhs rhs : FRepr) (rs : Int) : FRepr :=
-  if lhs.isZero then ⟨rs * rhs.signif, rhs.exp⟩
-  else if rhs.isZero then lhs
+  if lhs.isZero then (reprRound B m c p ⟨rs * rhs.signif, rhs.exp⟩).1
+  else if rhs.isZero then (reprRound B m c p lhs).1
   else (ctxAddSub B m c dub p lhs rhs rs).1
 
-/-- for operands that fit the precision the operators return the value of the `Context` method -/
-theorem opAddSub_eq_ctx (B : Nat) (m : Mode) (c : Coarse) (dub : Int → Nat) (p : Nat) (lhs rhs : FRepr) (rs : Int)
-    (hrs : rs = 1 ∨ rs = -1) (hld : lhs.digits B ≤ p) (hrd : rhs.digits B ≤ p) :
+/-- the operators return the value of the `Context` method — for ALL operands (the hypotheses `lhs.digits ≤ p`,
+    `rhs.digits ≤ p` of rounds 3–5 were needed only because of the repaired defect and are gone) -/
+theorem opAddSub_eq_ctx_all (B : Nat) (m : Mode) (c : Coarse) (dub : Int → Nat) (p : Nat) (lhs rhs : FRepr) (rs : Int)
+    (hrs : rs = 1 ∨ rs = -1) :
     opAddSub B m c dub p lhs rhs rs = (ctxAddSub B m c dub p lhs rhs rs).1 := by
   unfold opAddSub ctxAddSub
   by_cases hlz : lhs.isZero = true
   · simp only [hlz, if_true]
     rcases hrs with h | h <;> subst h
-    · simp only [if_true, reprRound_exact_of_fits B m c p rhs hrd, one_mul]
+    · simp only [if_true, one_mul]
     · have hne : ¬ ((-1 : Int) = 1) := by omega
-      have hnd : rhs.neg.digits B ≤ p := by
-        unfold FRepr.digits FRepr.neg digitsI at *; simpa using hrd
-      simp only [hne, if_false, reprRound_exact_of_fits B m c p rhs.neg hnd]
+      simp only [hne, if_false]
       unfold FRepr.neg; simp
   · simp only [hlz, if_false, Bool.false_eq_true]
-    by_cases hrz : rhs.isZero = true
-    · simp only [hrz, if_true, reprRound_exact_of_fits B m c p lhs hld]
-    · simp only [hrz, if_false, Bool.false_eq_true]
+
+/-- the round-3 statement (operands that fit the precision), kept under its name for the modules that cite it -/
+theorem opAddSub_eq_ctx (B : Nat) (m : Mode) (c : Coarse) (dub : Int → Nat) (p : Nat) (lhs rhs : FRepr) (rs : Int)
+    (hrs : rs = 1 ∨ rs = -1) (_hld : lhs.digits B ≤ p) (_hrd : rhs.digits B ≤ p) :
+    opAddSub B m c dub p lhs rhs rs = (ctxAddSub B m c dub p lhs rhs rs).1 :=
+  opAddSub_eq_ctx_all B m c dub p lhs rhs rs hrs
 
 end Dashu.Model.Float
